@@ -3,6 +3,27 @@
 import json, glob, os, re
 V = os.path.dirname(os.path.dirname(os.path.abspath(__file__)))
 DESC = {
+ "m4-C01": ("header-map readers test 'no byte A..Z' instead of key == ToLower(key)", "a header NAME in the file respelled with U+0130 / U+212A (which Unicode lower-casing folds onto i / k), lengths fixed up", "header-name respelling added on reading the report (K16)"),
+ "m4-C02": ("MiEncodePayload takes its buffer from a sync.Pool and returns it while e.Payload still aliases it", "a second exchange prepared before the first is written", "exchanges are now prepared in batches before any is signed (K16)"),
+ "m4-C03": ("b2 reader demands a host in the primary URL", "primary URL that is absolute without authority (urn:, file:///)", "primary-URL shapes added (K16)"),
+ "m4-C04": ("b1 writer skips a nil primary URL instead of failing", "b1 bundle without primary URL", "the case was excluded from MC_Bundle (the pinned writer panics on it); now included, with a panic on a bundle that must be refused counted as refusal (K16)"),
+ "m4-C05": ("variant key-count cap checked after the multiplication loop", "variants-value with >= 63 two-valued axes (product wraps) and no locations", "`manyaxes` mutation added (K16)"),
+ "m4-C06": ("first signer's chain adopted without copying", "the same chain object signs a second bundle that then gets a second signer", "one chain object per signer, a 3-certificate chain, and re-verification of the previous bundle after the next one is signed (K16)"),
+ "m4-C07": ("sign-bundle integrity-block opens its output without O_TRUNC", "output path already holds a longer file", "the C07 check now also drives the command-line path, every output path pre-filled (K16)"),
+ "m4-C08": ("signed message assembled in a pooled buffer that is returned before it is used", "another sign/verify between building the message and signing it", "a signature held in flight (gated algorithm, one scheduler thread) while another exchange is signed (K16)"),
+ "m4-C09": ("lifetime computed in int64 (wraps)", "date hugely negative so that expires - date >= 2^63", "signed timestamps: `SLifetimeOk` / `SInWindow` and six scenarios (K16)"),
+ "m4-C10": ("IsCacheable indexes its status table without bound check", "b3, validly signed, status 502..511 without freshness information", "valid signed exchanges over every status added to the totality harness (C09 caught it before)"),
+ "m4-C11": ("duplicate-key check with bytes.EqualFold", "two distinct keys equal under case folding", "case-pair keys added to MC_CborEnc and the generator (K16)"),
+ "m4-C12": ("text validated per 32 KiB block", "multi-byte character across a 32768-byte offset", "long texts made of multi-byte characters added (K16)"),
+ "m4-C13": ("argument bytes read by a slice expression bounded by cap, not len", "truncated integer head in a slice with spare capacity", "every input is also judged as prefix of a larger buffer; differing verdicts are `unstable` (K16)"),
+ "m4-C14": ("decoder gains WriteTo that forgets the undelivered tail of the current record", "Read of a few bytes, then io.Copy", "`copy` / `sniffcopy` consumers and the Drain rule of Trace_Mice (K16)"),
+ "m4-C15": ("digest header parsed as a list; no matching element yields a nil proof = 'all records done'", "digest header whose token is not the encoding's", ""),
+ "m4-C16": ("label validation moved to the list serialiser only", "ParameterisedIdentifier.String() called directly with a malformed label", "the single-identifier entry point and more malformed labels added (K16)"),
+ "m4-C17": ("SerializeSCTList returns bytes of a pooled buffer", "a second, shorter list serialised before the first is used", "results are now observed late, sizes also decreasing (K16)"),
+ "m4-C18": ("HeaderSha256 uses a pooled buffer that a failing call leaves dirty", "an unrelated failing call (colliding header names) before an ordinary one", "HeaderSha256 and a failing variant added to the interleaved purity histories; results observed late (K16)"),
+ "m4-C19": ("Encode buffers through bufio with a deferred Flush when there are > 512 records", "many records and a fault in the last buffered part", "a 520-record serializer added (K16)"),
+ "m4-C20": ("ParsePrivateKey fails on the first unparseable PEM block", "key file with an EC PARAMETERS block before the key (openssl ecparam)", "key layout `sec1params` added to Cli.tla (K16)"),
+
  "m3-C01": ("normalizeHeaderValues drops leading empty field values", "tampering that puts an empty value in front of a signed header value (in memory or as an extra map entry in the file)", "empty-value edits were added to the C01 mutation family on reading the report, before the evaluation (K15)"),
  "m3-C02": ("validateFallbackURL returns url.String() instead of the file's bytes", "a request URL that net/url re-serialises differently (upper-case scheme, non-ASCII, `|`, `{}`)", "missed at first by C02 (C01 caught it through bit flips in the scheme): request URLs outside the plain grammar + RefReadL; this also exposed F12"),
  "m3-C03": ("index built from Header.Get (first field line) of Variants / Variant-Key", "b1, several variants, header given as repeated field lines", "templates with repeated field lines added on reading the report (K15)"),
